@@ -15,6 +15,44 @@ NOT_DECIDED = "that parry's BVH search returns the global optimum (dependency), 
 ASSUMPTIONS = ["parry: project_local_point_and_get_location returns (projection, (feature id, location))"]
 
 
+def project_with_tol_rules(cx):
+    """shared with C03: the optional transform moves the query once, and acceptance is judged from that moved query"""
+    M = 'geom3::mesh::Mesh'
+    b = cx.fn(f'{M}::project_with_tol')
+    if b:
+        calls = b.calls('TriMesh::project_local_point_and_get_location_with_max_dist')
+        ok = len(calls) == 1
+        q = None
+        if ok:
+            s = calls[0]
+            q = cx.arg(s, 1)
+            ok = match('(phi (param point) (call Isometry::mul (unwrap (param transform)) (param point)))', q) is not None and \
+                match('(field is_solid (param self))', cx.arg(s, 2)) is not None and match('(param max_dist)', cx.arg(s, 3)) is not None
+        cx.ob('EXPR', 'Mesh::project_with_tol:query', ok, 'the optional transform is applied to the query exactly once; solid flag and cap are forwarded', where=b.file, found=q)
+        somes = [(s, d) for s, d in cx.rets(b) if d[0] == 'agg' and d[1].endswith('Option::Some')]
+        nones = [(s, d) for s, d in cx.rets(b) if d[0] == 'agg' and d[1].endswith('Option::None')]
+        ANG = '(call f64::abs (call *::angle (unwrap (call Triangle::normal (call TriMesh::triangle (field shape (param self)) $id))) (call OPoint::sub $q (field point $prj))))'
+        oka = len(somes) == 1
+        if oka:
+            s, d = somes[0]
+            e = match('(agg * (0 (agg tuple (0 $prj) (1 $id) (2 $loc))))', d)
+            oka = e is not None and q is not None
+            if oka:
+                e = dict(e)
+                e['q'] = q          # the offset is measured from the SAME (once transformed) query that was projected
+
+                ok2, off = cx.all_paths(b, s.bb, lambda has: has(f'(lt {ANG} (param max_angle))', True, e) or has(f'(lt (sub PI (param max_angle)) {ANG})', True, e))
+                oka = ok2
+        cx.ob('GUARD', 'Mesh::project_with_tol:accept', oka,
+              'a result is accepted only under angle < max_angle or angle > PI - max_angle, the angle being |normal(face id).angle(query - projection)| with the SAME query that was projected and the SAME projection', where=b.file)
+        # rejection only outside: every None is under no-projection, no-normal, or both angle tests false
+        okn = True
+        for s, d in nones:
+            o, _ = cx.all_paths(b, s.bb, lambda has: has('(is _ None)', True) or (has('(lt _ (param max_angle))', False) and has('(lt (sub PI (param max_angle)) _)', False)))
+            okn = okn and o
+        cx.ob('GUARD', 'Mesh::project_with_tol:reject', okn and len(nones) >= 1, 'None is returned only when there is no projection/normal or both angle tests fail', where=b.file)
+
+
 def run(cx):
     for mod, C, S in (('geom2::curve2', 'Curve2', 'CurveStation2'), ('geom3::curve3', 'Curve3', 'CurveStation3')):
         PRJ = '(call Polyline::project_local_point_and_get_location (field line (param self)) (param test_point) false)'
@@ -51,39 +89,7 @@ def run(cx):
         for cl in cx.facts.closures_of(b.name):
             cx.expect('EXPR', 'Mesh::project_with_max_dist:unpack', cx.retval(cl), '(agg tuple (0 (field 0 (param 2))) (1 (field 0 (field 1 (param 2)))) (2 (field 1 (field 1 (param 2)))))',
                       '(projection, (id, loc)) is flattened to (projection, id, loc) without mixing', where=cl.file)
-    b = cx.fn(f'{M}::project_with_tol')
-    if b:
-        calls = b.calls('TriMesh::project_local_point_and_get_location_with_max_dist')
-        ok = len(calls) == 1
-        q = None
-        if ok:
-            s = calls[0]
-            q = cx.arg(s, 1)
-            ok = match('(phi (param point) (call Isometry::mul (unwrap (param transform)) (param point)))', q) is not None and \
-                match('(field is_solid (param self))', cx.arg(s, 2)) is not None and match('(param max_dist)', cx.arg(s, 3)) is not None
-        cx.ob('EXPR', 'Mesh::project_with_tol:query', ok, 'the optional transform is applied to the query exactly once; solid flag and cap are forwarded', where=b.file, found=q)
-        somes = [(s, d) for s, d in cx.rets(b) if d[0] == 'agg' and d[1].endswith('Option::Some')]
-        nones = [(s, d) for s, d in cx.rets(b) if d[0] == 'agg' and d[1].endswith('Option::None')]
-        ANG = '(call f64::abs (call *::angle (unwrap (call Triangle::normal (call TriMesh::triangle (field shape (param self)) $id))) (call OPoint::sub $q (field point $prj))))'
-        oka = len(somes) == 1
-        if oka:
-            s, d = somes[0]
-            e = match('(agg * (0 (agg tuple (0 $prj) (1 $id) (2 $loc))))', d)
-            oka = e is not None and q is not None
-            if oka:
-                e = dict(e)
-                e['q'] = q          # the offset is measured from the SAME (once transformed) query that was projected
-
-                ok2, off = cx.all_paths(b, s.bb, lambda has: has(f'(lt {ANG} (param max_angle))', True, e) or has(f'(lt (sub PI (param max_angle)) {ANG})', True, e))
-                oka = ok2
-        cx.ob('GUARD', 'Mesh::project_with_tol:accept', oka,
-              'a result is accepted only under angle < max_angle or angle > PI - max_angle, the angle being |normal(face id).angle(query - projection)| with the SAME query that was projected and the SAME projection', where=b.file)
-        # rejection only outside: every None is under no-projection, no-normal, or both angle tests false
-        okn = True
-        for s, d in nones:
-            o, _ = cx.all_paths(b, s.bb, lambda has: has('(is _ None)', True) or (has('(lt _ (param max_angle))', False) and has('(lt (sub PI (param max_angle)) _)', False)))
-            okn = okn and o
-        cx.ob('GUARD', 'Mesh::project_with_tol:reject', okn and len(nones) >= 1, 'None is returned only when there is no projection/normal or both angle tests fail', where=b.file)
+    project_with_tol_rules(cx)
     b = cx.fn(f'{M}::indices_in_tol')
     if b:
         from vpa import comp as CP
